@@ -347,6 +347,12 @@ Theorem enum_members_are_tree_elements : forall n dt cls dcls key name p items t
            (fun acc => IEnum acc mods0 key name false false (option_map pn2_out p) (map strip_e items) FinNone).
 Proof. exact enum_definition_is_member. Qed.
 
+Theorem opaque_enum_members_are_tree_elements : forall n dt cls dcls key name p,
+  enum_key key -> (forall X, base_ok p (ktok T_LIT_59 :: X)) ->
+  one_step n dt cls dcls (map ktok key ++ mkTk T_NAME name :: ktok T_LIT_58 :: pn2_toks p ++ [ktok T_LIT_59])
+           (fun acc => IEnumFwd acc key name (pn2_out p)).
+Proof. exact opaque_enum_is_member. Qed.
+
 (* class templates: a template header (any parameter list of C01's template theorem) in front of a class definition tree:
    the class is reported with exactly that header, and its members as in the untemplated case *)
 Theorem class_templates_decode_partial : forall n dt h (w : wclass) T,
@@ -368,6 +374,7 @@ Print Assumptions using_declaration_members_are_tree_elements.
 Print Assumptions alias_members_are_tree_elements.
 Print Assumptions enum_members_are_tree_elements.
 Print Assumptions class_templates_decode_partial.
+Print Assumptions opaque_enum_members_are_tree_elements.
 Print Assumptions class_head_decodes_partial.
 Print Assumptions method_tail_decodes_partial.
 Print Assumptions field_statement_decodes_partial.
